@@ -82,7 +82,7 @@ Definition next_stream : list event :=
    ev KReturn 1 (Some 100) 2 MScript false false;
    ev KCall 2 (Some 101) 5 MScript false false; ev KLine 2 (Some 101) 6 MScript false false;
    ev KCall 3 (Some 2) 1 MScript false false;
-   mkE KException 2 (Some 101) 6 MScript 0 false false (mkX false false false (Some 3) 2);
+   mkE KException 2 (Some 101) 6 MScript 0 false false (mkX false false false (Some 3) 2 (Some 2) false);
    ev KLine 2 (Some 101) 7 MScript false false].
 
 Theorem C05_next_refuted :
@@ -106,7 +106,7 @@ Definition continue_stream : list event :=
   [ev KCall 10 (Some 9) 400 MSkip false true;
    ev KCall 11 (Some 10) 2 MScript false true; ev KLine 11 (Some 10) 3 MScript false true;
    ev KLine 11 (Some 10) 4 MScript false true;
-   mkE KException 11 (Some 10) 4 MScript 0 false true (mkX true false false (Some 11) 4);
+   mkE KException 11 (Some 10) 4 MScript 0 false true (mkX true false false (Some 11) 4 (Some 10) true);
    ev KLine 11 (Some 10) 5 MScript false true].
 
 Theorem C05_continue_refuted :
